@@ -332,7 +332,7 @@ def listenPred (prop : String) (caseLine obsLine : String) : String :=
       | .list (.atom "panic" :: _) => some "panic"
       | _ =>
         match parseBoundCase cs with
-        | some b => if prop == "C14" then boundPred b os else some "bound-case-for-another-property"
+        | some b => if prop == "C14" || prop == "C13" then boundPred b os else some "bound-case-for-another-property"
         | none =>
         match parseConcCase cs with
         | some c =>
